@@ -116,6 +116,7 @@ func TestVerifC06Udp(t *testing.T) {
 		base := time.Now()
 		var res c06udpResult
 		var firstKey PacketSnifferKey
+		lastEnd := time.Now()
 		for i, st := range cs.Steps {
 			data, _ := hex.DecodeString(st.D)
 			key := NewPacketSnifferKey(src, dst, data)
@@ -129,8 +130,12 @@ func TestVerifC06Udp(t *testing.T) {
 				if !g || w > 3000 {
 					res.Slow = true // logical time must stay ahead of the wall clock
 				}
+				lastEnd = time.Now() // the session is gone: its real TTL no longer matters
 			}
 			stepStart := time.Now()
+			if i > 0 && stepStart.Sub(lastEnd) > time.Second {
+				res.Slow = true // the wall clock ran away between two datagrams (the session's real TTL is 5 s)
+			}
 			now := base.Add(time.Duration(st.T) * time.Millisecond)
 			func() {
 				defer func() {
@@ -160,6 +165,10 @@ func TestVerifC06Udp(t *testing.T) {
 			if time.Since(stepStart) > time.Second {
 				res.Slow = true
 			}
+			lastEnd = time.Now()
+		}
+		if os.Getenv("VERIF_C06_INJECT_SLOW") != "" && os.Getenv("VERIF_TIME_SCALE") == "" && n%7 == 0 {
+			res.Slow = true // self-test of the orchestrator's retry path only
 		}
 		res.FinalHeld, _ = c06udpHeld(firstKey)
 		if cs.FinalExpire {
